@@ -900,7 +900,9 @@ def part_spec(doc):
     objs.append({"k": "ts", "s": 0, "beats": doc["meter"][0], "beat_type": doc["meter"][1]})
     objs.append({"k": "ks", "s": 0, "fifths": doc["key"][0], "mode": doc["key"][1]})
     for st in doc["staves"]:
-        objs.append({"k": "clef", "s": 0, "staff": st["n"], "sign": st["clef"][0], "line": st["clef"][1], "oct": 0})
+        # 'clef_on' (optional): the staff numbers that get a Clef object; default every staff
+        if doc.get("clef_on") is None or st["n"] in doc["clef_on"]:
+            objs.append({"k": "clef", "s": 0, "staff": st["n"], "sign": st["clef"][0], "line": st["clef"][1], "oct": 0})
     nid = [0]
     expected = []
     pos = F(0)
@@ -1089,7 +1091,14 @@ def g_roundtrip(fmt, tier, seed):
 #                           records an interpretation line (the '*' beside a later spine's '*^') at the END of the note
 #                           it is sounding, and the later spine jumps forward to that position: its notes after a split
 #                           inside the measure come too late
-FIXES_PENDING = ()  # ("kern-interp-line-inside-note": repaired in /repo 7b7b2b6)
+#   kern-more-spines-than-lines  load_kern raises IndexError for a file (without spine splits) that has more **kern spines
+#                           than lines: the part index table is made with one entry per LINE (np.arange(file.shape[0]))
+#                           and indexed by spine, e.g. 16 spines x 1 measure (13 lines), 24 spines x 2 measures (19 lines)
+#   kern-export-row-budget  save_kern raises IndexError for parts with many clefs/signatures: the output table has room
+#                           for notes + rests + measures + 12 rows, while every Clef, TimeSignature, KeySignature and
+#                           Tempo takes a row of its own - a part with 9 or more Clef objects (10+ staves) overflows
+FIXES_PENDING = ("kern-more-spines-than-lines", "kern-export-row-budget")  # ("kern-interp-line-inside-note": repaired in /repo 7b7b2b6)
+KERN_EXPORT_MAX_CLEFS = 9  # while kern-export-row-budget is pending: parts with more Clef objects are left out of roundtrip-kern-staves
 
 
 def _empty_lower_staff(doc):
@@ -1248,6 +1257,169 @@ def g_roundtrip_gaps(tier, seed):
                 idx += 1
 
 
+# ---------------------------------------------------------------------------------------------
+# sub-spaces: magnitude of the staff number / number of staves (orchestral size)
+#
+# The small families above only use staff numbers 1..5 and at most 3 spines / 2 staves.  The spaces below repeat small
+# documents with the staff number running over a magnitude alphabet (one, two, three and four digits, the values around
+# every power of ten) and with regular N-staff instances (N in ORCH_SIZES).
+
+STAFF_NUMS_QUICK = [1, 2, 3, 9, 10, 11, 12, 19, 20, 21, 24, 30, 99, 100, 101, 110, 255, 1000]
+STAFF_NUMS_THOROUGH = list(range(1, 41)) + [99, 100, 101, 110, 111, 120, 200, 255, 256, 999, 1000, 1001]
+STAFF_PAIR_NUMS = [1, 2, 9, 10, 12, 21, 100]
+ORCH_SIZES_QUICK = [10, 12, 16, 24]
+ORCH_SIZES_THOROUGH = [9, 10, 11, 12, 13, 16, 20, 24, 32, 40]
+# how the spines of an N-spine file are marked / loaded
+ORCH_MARKS = [("none", None), ("diff", "part"), ("same", "part"), ("same", "I"), ("force", None)]
+
+
+def _kern_more_spines_than_lines(doc):
+    """the document has more spines than lines (and no spine split): see FIXES_PENDING kern-more-spines-than-lines"""
+    text = M.kern_text(doc)
+    lines = [l for l in text.splitlines() if l and not l.startswith("!!")]
+    return "*^" not in text and len(doc["spines"]) > len(lines)
+
+
+def g_kern_staff_numbers(tier, seed):
+    """the staff number of the *staffN interpretation over a magnitude alphabet, and orchestral numbers of spines:
+    (a) 1 spine x N in STAFF_NUMS x clef {G2, undeclared} x {2 plain measures, spine split in measure 1 (the sub-spine
+        stays on staff N)}
+    (b) 2 spines x every ordered pair (a, b) of STAFF_PAIR_NUMS (a = b: two spines on one staff) x marking {separate
+        parts unmarked, *part different, *part same, *I same, force_same_part=True}
+    (c) N spines, N in ORCH_SIZES, one spine per staff x staff order {N..1, 1..N, N+5..6} x the 5 markings x 1-3
+        measures x clefs {on every spine, undeclared}"""
+    fs = fillings((4, 4), "kern")
+    nums = STAFF_NUMS_THOROUGH if tier == "thorough" else STAFF_NUMS_QUICK
+    sizes = ORCH_SIZES_THOROUGH if tier == "thorough" else ORCH_SIZES_QUICK
+    pending = "kern-more-spines-than-lines" in FIXES_PENDING
+
+    def mk(doc, mark):
+        c = {"f": "kern", "doc": doc}
+        if mark[0] == "force":
+            c["opt"] = dict(FORCE)
+        return c
+
+    for n in nums:
+        for clef in (("G", 2), None):
+            ms = [reindex(fs[(n + mi) % 5], mi) for mi in range(2)]
+            yield {"f": "kern", "doc": kern_doc([ms], staffs=[n], clefs=[clef])}
+            yield {"f": "kern", "doc": kern_doc([ms], staffs=[n], clefs=[clef], splits=[{"0": reindex(fs[(n + 2) % 5], 4)}])}
+    for a in STAFF_PAIR_NUMS:
+        for b in STAFF_PAIR_NUMS:
+            for mark in ORCH_MARKS:
+                style, parts = _marked(2, mark) if mark[0] != "force" else ({}, None)
+                sms = [[reindex(fs[(a + s + mi) % 5], 2 * s + mi) for mi in range(2)] for s in range(2)]
+                # two spines that land on one staff of one part carry one clef
+                clefs = [("G", 2), ("G", 2)] if a == b else [("F", 4), ("G", 2)]
+                yield mk(kern_doc(sms, staffs=[a, b], clefs=clefs, parts=parts, style=style), mark)
+    for n in sizes:
+        for order in ("down", "up", "offset"):
+            staffs = {"down": list(range(n, 0, -1)), "up": list(range(1, n + 1)), "offset": list(range(n + 5, 5, -1))}[order]
+            for mark in ORCH_MARKS:
+                for nm in (1, 2, 3):
+                    for with_clefs in (True, False):
+                        style, parts = _marked(n, mark) if mark[0] != "force" else ({}, None)
+                        sms = [[reindex(fs[(s + mi) % 5], 2 * s + mi) for mi in range(nm)] for s in range(n)]
+                        clefs = [[("G", 2), ("C", 3), ("F", 4)][s % 3] for s in range(n)] if with_clefs else None
+                        doc = kern_doc(sms, staffs=staffs, clefs=clefs, parts=parts, style=style)
+                        if pending and _kern_more_spines_than_lines(doc):
+                            continue
+                        yield mk(doc, mark)
+
+
+def g_mei_staff_numbers(tier, seed):
+    """staffDef@n / staff@n / layer@n over the magnitude alphabet and orchestral numbers of staves:
+    (a) 1 staff x n in STAFF_NUMS x layer number {1, 2, 10, 12} x staffGrp {flat, nested}, 2 measures
+    (b) 2 staves x every ordered pair (a, b), a != b, of STAFF_PAIR_NUMS x {flat, nested}; once more with the second
+        event of staff a written with staff="b" (cross-staff attribute)
+    (c) N staves 1..N, N in ORCH_SIZES x {flat, nested} x 1-2 measures x layer number {1, the staff number}"""
+    fs = fillings((4, 4), "mei")
+    nums = STAFF_NUMS_THOROUGH if tier == "thorough" else STAFF_NUMS_QUICK
+    sizes = ORCH_SIZES_THOROUGH if tier == "thorough" else ORCH_SIZES_QUICK
+
+    def mk(staves, nm, grp):
+        return {"f": "mei", "doc": {"meter": [4, 4], "key": [0, None], "nm": nm, "staves": staves, "mei": {"group": grp}}}
+
+    for n in nums:
+        for ln in (1, 2, 10, 12):
+            for grp in ("flat", "nested"):
+                ms = [reindex(fs[(n + ln + mi) % len(fs)], mi) for mi in range(2)]
+                yield mk([{"n": n, "clef": ["G", 2], "layers": [{"n": ln, "m": ms}]}], 2, grp)
+    for a in STAFF_PAIR_NUMS:
+        for b in STAFF_PAIR_NUMS:
+            if a == b:
+                continue
+            for grp in ("flat", "nested"):
+                for cross in (False, True):
+                    staves = []
+                    for s, sn in enumerate((a, b)):
+                        ms = [reindex(fs[(a + s + mi) % 5], 2 * s + mi) for mi in range(2)]
+                        if cross and s == 0:
+                            ms[0] = [lf("n", 4, 0, 0), lf("n", 4, 0, 1, st=b), lf("n", 2, 0, 2)]
+                        staves.append({"n": sn, "clef": ["G", 2] if s == 0 else ["F", 4], "layers": [{"n": 1, "m": ms}]})
+                    yield mk(staves, 2, grp)
+    for n in sizes:
+        for grp in ("flat", "nested"):
+            for nm in (1, 2):
+                for own_layer in (False, True):
+                    staves = [{"n": s + 1, "clef": [["G", 2], ["C", 3], ["F", 4]][s % 3],
+                               "layers": [{"n": (s + 1) if own_layer else 1, "m": [reindex(fs[(s + mi) % len(fs)], 2 * s + mi) for mi in range(nm)]}]}
+                              for s in range(n)]
+                    yield mk(staves, nm, grp)
+
+
+RT_STAFF_SETS = [[12], [1, 12], [10, 11], [2, 100]]
+RT_SIZES_QUICK = [3, 9, 10, 12]
+RT_SIZES_THOROUGH = [3, 9, 10, 11, 12, 16, 24]
+
+
+def g_roundtrip_staves(fmt, tier, seed):
+    """parts with many staves / high staff numbers, one voice per staff (voice number = position of the staff):
+    (a) staves 1..N, N in RT_SIZES x 1-2 measures x Clef objects {on every staff, on staves 1-2 only}
+    (b) the staff sets of RT_STAFF_SETS (one or two staves with two- and three-digit numbers) x 1-2 measures, a clef on
+        every staff"""
+    fs = fillings((4, 4), "kern")
+    sizes = RT_SIZES_THOROUGH if tier == "thorough" else RT_SIZES_QUICK
+    pending = fmt == "kern" and "kern-export-row-budget" in FIXES_PENDING
+    pending_load = fmt == "kern" and "kern-more-spines-than-lines" in FIXES_PENDING
+
+    def written_lines(doc):
+        """lines of the file save_kern writes for these parts (complete voices, no ties across): **kern, *staff, one
+        line per Clef, meter, key, per measure the barline and one line per distinct onset, *-"""
+        n = 2 + (len(doc["clef_on"]) if doc.get("clef_on") is not None else len(doc["staves"])) + 2 + 1
+        for mi in range(doc["nm"]):
+            onsets = set()
+            for st in doc["staves"]:
+                for ly in st["layers"]:
+                    pos = F(0)
+                    for leaf, tup in M.flatten(ly["m"][mi]):
+                        onsets.add(pos)
+                        pos += M.leaf_dur(leaf, tup)
+            n += 1 + len(onsets)
+        return n
+
+    def mk(ns, nm, clef_on):
+        staves = [{"n": n, "clef": [["G", 2], ["C", 3], ["F", 4]][i % 3],
+                   "layers": [{"n": i + 1, "m": [reindex(fs[(i + mi) % 5], 2 * i + mi) for mi in range(nm)]}]} for i, n in enumerate(ns)]
+        doc = {"meter": [4, 4], "key": [0, None], "nm": nm, "staves": staves, "mei": {}}
+        if clef_on is not None:
+            doc["clef_on"] = clef_on
+        return {"f": "rt", "w": fmt, "doc": doc}
+
+    for n in sizes:
+        for nm in (1, 2):
+            for clef_on in (None, [1, 2]):
+                if pending and clef_on is None and n > KERN_EXPORT_MAX_CLEFS:
+                    continue
+                c = mk(list(range(1, n + 1)), nm, clef_on)
+                if pending_load and n > written_lines(c["doc"]):
+                    continue  # the written file has more spines than lines: load_kern raises on it
+                yield c
+    for ns in RT_STAFF_SETS:
+        for nm in (1, 2):
+            yield mk(ns, nm, None)
+
+
 # file names: characters that are legal in a (POSIX) file name but special in URLs, shells, globs or format strings,
 # further dots, an inner extension of another format
 NAME_STEMS = ["C#_minor", "why?", "theme;var1", "a b", "a&b=c", "100%", "a%20b", "x.mid#2", "x.musicxml?raw=true", "a+b",
@@ -1376,6 +1548,25 @@ def spaces(tier, seed):
            "filled with plain values (explicit); x gap in measure 1/2 x other measure complete/absent x {alone, beside a voice of whole-measure "
            "notes on the same / another staff} (12 placements); quick: every (a, c) of 4/4 with one placement (cycled) + hash block VERIF_SEED "
            "of %d of the rest; the MEI writer has no rest filling (gaps are not expressible there)" % KERN_GAP_BLOCKS),
+        sp("kern-staff-numbers", g_kern_staff_numbers, "magnitude of the staff number and orchestral numbers of spines: 1 spine x *staffN, N in "
+           "%s (thorough: 1..40 and %s) x clef {G2, undeclared} x {2 plain measures, spine split in measure 1}; 2 spines x all 49 ordered pairs "
+           "of staff numbers %s (equal = two spines on one staff) x {unmarked, *part different, *part same, *I same, force_same_part=True}; N spines "
+           "with one staff each, N in %s (thorough: %s) x staff order {N..1, 1..N, N+5..6} x the same 5 markings x 1-3 measures x clefs {every "
+           "spine, undeclared}; expected as everywhere: every note on the staff its spine declares, a clef in force on that staff, one voice "
+           "per spine" % (STAFF_NUMS_QUICK, STAFF_NUMS_THOROUGH[40:], STAFF_PAIR_NUMS, ORCH_SIZES_QUICK, ORCH_SIZES_THOROUGH)
+           + _pending_note("kern-more-spines-than-lines", "the N-spine documents that have more spines than lines (load_kern raises IndexError): "
+                           "N=16 with 1 measure, N=24 with 1-2 measures (thorough: also N=20 x 1, N=32/40 x 1-2 or 1-3)")),
+        sp("mei-staff-numbers", g_mei_staff_numbers, "1 staff x staffDef@n in the same staff-number alphabet x layer@n {1,2,10,12} x staffGrp "
+           "{flat, nested}; 2 staves x all ordered pairs a != b of %s x {flat, nested} x {plain, one note of staff a with staff=\"b\"}; N staves "
+           "1..N, N in %s (thorough: %s) x {flat, nested} x 1-2 measures x layer@n {1, staff number}" % (STAFF_PAIR_NUMS, ORCH_SIZES_QUICK, ORCH_SIZES_THOROUGH)),
+        sp("roundtrip-mei-staves", g_roundtrip_staves, "save_mei -> load_mei of parts with one voice per staff: staves 1..N, N in %s (thorough: %s) x "
+           "1-2 measures x Clef objects {every staff, staves 1-2 only}; staff sets %s x 1-2 measures"
+           % (RT_SIZES_QUICK, RT_SIZES_THOROUGH, RT_STAFF_SETS), "mei"),
+        sp("roundtrip-kern-staves", g_roundtrip_staves, "the same parts, save_kern -> load_kern (complete in both tiers)"
+           + _pending_note("kern-export-row-budget", "the parts with a Clef object on every one of more than %d staves (save_kern raises "
+                           "IndexError); the same staves with clefs on staves 1-2 only are kept" % KERN_EXPORT_MAX_CLEFS)
+           + _pending_note("kern-more-spines-than-lines", "the parts whose written file has more spines than lines (thorough only: 16 staves x 1 "
+                           "measure, 24 staves x 1-2 measures with clefs on staves 1-2; load_kern raises IndexError on the file)"), "kern"),
         sp("dispatch", g_dispatch, "load_score on .mei/.MEI/.Mei/.krn/.kern/.KRN/.Kern; wrong extension for the content"),
         sp("dispatch-names", g_dispatch_names, "load_score on local files: %d file-name stems with characters special in URLs/shells/globs, inner "
            "dots and inner extensions x {.mei,.MEI,.krn,.kern,.KRN}; %d directory names; given as str, pathlib.Path or relative path"
@@ -1479,15 +1670,17 @@ def compare_part(res, fmt, rp, op, tag):
     else:
         labels = sorted({n[6] for n in rp["notes"]})
         voices = sorted({n[6] for n in op["notes"]}, key=lambda v: (v is None, v or 0))
-        found = False
-        if len(labels) == len(voices):
-            tgt = _proj(op["notes"], SP + (0, 1, 7, 6))
-            for perm in itertools.permutations(voices):
-                mp = dict(zip(labels, perm))
-                mapped = [n[:6] + (mp[n[6]],) + n[7:] for n in rp["notes"]]
-                if _proj(mapped, SP + (0, 1, 7, 6)) == tgt:
-                    found = True
-                    break
+
+        def partition(notes):
+            # the multiset of voice contents: a bijection between the labels and the reader's voice numbers that maps
+            # every note onto its counterpart exists iff the two multisets are equal (no search over the orderings of
+            # the voices, which is factorial in the number of spines of a part)
+            groups = {}
+            for n in notes:
+                groups.setdefault(n[6], []).append(n)
+            return sorted((_proj(g, SP + (0, 1, 7)) for g in groups.values()), key=repr)
+
+        found = len(labels) == len(voices) and partition(rp["notes"]) == partition(op["notes"])
         if not found:
             res.fail("voice", expected="one voice per spine/sub-spine: %d voices" % len(labels),
                      observed="voices %r; %s" % (voices, _fr(_proj(op["notes"], (0, 3, 5, 6))[:8])), where=where, detail=tag)
